@@ -32,7 +32,7 @@ CONFIG = {
                             'pairs.documented': 110, 'rules.distinct-fired': 70, 'renumbered.compared': 40000, 'tautomers.generated': 1500,
                             'pairs.geminal': 100, 'warm-cache.compared': 30000, 'inputs.quaternized': 600}},
 }
-EXTRA = ['[2H]CO', 'C[NH+]([2H])C', '[2H]C([H])([H])O', '[2H]C=C', 'CC([2H])O', '[3H]CC', '[2H]C([2H])O', 'C[C@H]([2H])O', '[2H]c1ccccc1', 'CC([2H])=O',
+EXTRA = ['CCN1C=C(O)[N+](C)=C1', 'CCN1C=C(N)[N+](C)=C1', '[2H]CO', 'C[NH+]([2H])C', '[2H]C([H])([H])O', '[2H]C=C', 'CC([2H])O', '[3H]CC', '[2H]C([2H])O', 'C[C@H]([2H])O', '[2H]c1ccccc1', 'CC([2H])=O',
          'N#Cc1ccc2[nH]ccc2c1', 'N#CC=CO', 'C#CC=CNC', 'N#Cc1ccc(O)cc1', 'OC=CC=C=C', 'N#CC(C)=C(C)O', 'C#Cc1ccc2[nH]c(C)cc2c1', 'N#CC=CC=CN', 'OC(C)=CC=C=CC',
          'CN(=O)=O', 'C[N+](=O)[O-]', 'CN=[N+]=[N-]', 'CN=N#N', 'C[S+](C)[O-]', 'CS(C)=O', 'O=[N+]([O-])c1ccccc1', 'C[N+](C)(C)[O-]',
          'CC(=O)[O-].[Na+]', 'C[NH3+].[Cl-]', 'CC(O)=CC', 'CC(=O)CC(C)=O', 'Oc1ccccn1', 'O=c1cccc[nH]1', 'Oc1ncnc2[nH]cnc12', 'NC(=N)N',
@@ -108,6 +108,21 @@ def geminal_pairs():
         a2, b2 = parts[(i * 7 + 3) % len(parts)]
         out.append(('C(%s)%s' % (a, a2), 'C(%s)%s' % (b, b2)))
     return out
+
+
+def amidinium(m):
+    """N+=C-N with a neutral three-coordinate (or N-H) nitrogen: the positive charge is written on either nitrogen (also in aromatic form)"""
+    for n, a in m.atoms():
+        if a.atomic_number != 7 or a.charge != 1:
+            continue
+        for c, b in m._bonds[n].items():
+            if b.order not in (2, 4) or m._atoms[c].atomic_number != 6:
+                continue
+            for k, b2 in m._bonds[c].items():
+                x = m._atoms[k]
+                if k != n and x.atomic_number == 7 and not x.charge and b2.order in (1, 4) and len(m._bonds[k]) + (x.implicit_hydrogens or 0) == 3:
+                    return True
+    return False
 
 
 def overlapping_single_pass_groups(m):
@@ -275,7 +290,15 @@ def check_ops(ctx, m, src, cfg, rng, tautomer_fix_ok):
         # idempotence
         r2 = run_op(ctx, name, r, ft, src)
         if r2 is not None and not same_molecule(r, r2):
-            ctx.violation('not-idempotent/%s' % name, '%s: %s -> %s -> %s' % (src, m, r, r2), w)
+            tag = ''
+            if name in ('canonicalize', 'standardize') and amidinium(m):
+                # recorded finding: a tautomer rule of the table matches one resonance form of a delocalised cation only; without the
+                # tautomer rules the operation must be idempotent on the same input, otherwise this is something else
+                a0 = run_op(ctx, name, m, False, src)
+                a1 = run_op(ctx, name, a0, False, src) if a0 is not None else None
+                if a1 is not None and same_molecule(a0, a1):
+                    tag = '/tautomer-rule-matches-one-resonance-form-of-an-amidinium'
+            ctx.violation('not-idempotent/%s%s' % (name, tag), '%s: %s -> %s -> %s' % (src, m, r, r2), w)
             continue
         # the same with every cached view read before the call (input) and between the two applications (result)
         rw = run_op(ctx, name, m, ft, src, warmed=True)
